@@ -32,6 +32,18 @@ def kf_rust_week_zero(fl):
     return fl.get("backend") == "rust" and fl.get("kind") == "accepted-invalid" and fl.get("week_or_weekday_zero") is True
 
 
+def kf_rust_offset_range(fl):
+    """'+24:00', '+05:99': the compiled parser accepts an offset of exactly 24 h (the resulting DateTime's utcoffset() raises) and
+    minutes above 59"""
+    return fl.get("backend") == "rust" and fl.get("kind") == "accepted-invalid" and fl.get("offset_out_of_range") is True
+
+
+def kf_time_offset_dropped(fl):
+    """either backend: pendulum.parse of a time-only string with an offset returns a naive Time (parser.py rebuilds the Time from
+    hour..microsecond only); parse_iso8601 itself keeps the offset"""
+    return fl.get("kind") == "time-offset-dropped" and fl.get("form") == "time"
+
+
 def _worker(script, env, payload, timeout):
     p = subprocess.run([sys.executable, os.path.join(ROOT, "bounded", script)], input=json.dumps(payload), capture_output=True, text=True,
                        env=env, timeout=timeout)
